@@ -1,5 +1,5 @@
 """Property -> rules registry."""
-from .rules import kernel, incr, rot, sched, meas
+from .rules import kernel, incr, rot, sched, meas, integrator
 
 PROPS = {
     'C01': dict(
@@ -75,6 +75,24 @@ PROPS = {
                  'residual is predicted minus measured', 'simulator/constructor column agreement'],
         undecided=['numerical zero residual at the true state',
                    'H entry-wise equal to the derivative (see H-JACOBIAN when built)']),
+    'C02': dict(
+        rules=[kernel.row_rec, integrator.buf_rules, integrator.carrier, integrator.predict_eff],
+        decided=['kernel writes stay inside the buffers for every chunking and capacity (linear '
+                 'arithmetic proof on both paths of the capacity test)',
+                 'all state carriers written together and with matching columns; set_pva writes '
+                 'the row the next call reads', 'predict stores nothing observable',
+                 'integrate appends the rows just written, stamped with the increment times, and '
+                 'returns previous last row + appended rows'],
+        undecided=['bit-identity of floating-point results across chunkings']),
+    'C13': dict(
+        rules=[integrator.alt_freeze, integrator.es_copy, integrator.es_2drows,
+               meas.meas_shape],
+        decided=['every writer of the velocity carrier stores vertical velocity zero and altitude '
+                 'is copied (constructor, kernel, set_pva)',
+                 '2-D correction returns input altitude and vertical velocity',
+                 'down / VD rows of the 2-D output transform are identically zero (zero reported '
+                 'sd in both filters)', 'position / NED-velocity models return 2 rows'],
+        undecided=['nothing further: the statement is structural']),
 }
 
 
